@@ -113,6 +113,17 @@ def _edit_options(x, allow_tuples, allow_raw_keys):
     """List of (name, new value) edits applicable to the sub-value x."""
     out = []
     t = type(x)
+    # near misses between *kinds* of values (a tagged encoding that confuses its tags equates exactly these)
+    if t is list and len(x) == 0:
+        out += [('[]->{}', {}), ('[]->false', False), ('[]->null', None), ('[]->""', '')]
+    if t is list and len(x) == 1 and type(x[0]) is int and x[0] in (0, 1, 2):
+        out += [('[n]->true', True), ('[n]->false', False), ('[n]->n', x[0])]
+    if t is dict and len(x) == 0:
+        out += [('{}->[]', []), ('{}->true', True), ('{}->false', False), ('{}->null', None)]
+    if t is bool:
+        out += [('bool->[1]', [1]), ('bool->[2]', [2]), ('bool->[0]', [0]), ('bool->{}', {}), ('bool->[]', []), ('bool->[bool]', [x])]
+    if x is None:
+        out += [('none->[]', []), ('none->{}', {}), ('none->[none]', [None])]
     if t is list:
         if allow_tuples:
             out.append(('list->tuple', tuple(x)))
